@@ -34,11 +34,14 @@ theorem play_fail_noop (e : Env) (s : St) (lh : Int) (b : Block) (h : (play e s 
       by_cases h3 : parentMissing e s.pool [] b.txs = true
       · simp [h3]
       · simp only [h3] at h ⊢
-        revert h
-        generalize applyBlockTxs e lh b.prop _ b.txs _ = res
-        rcases res with _ | ⟨s2, r⟩
-        · simp
-        · cases r <;> simp
+        by_cases h4 : staleMember e s.pool [] b.txs = true
+        · simp [h4]
+        · simp only [h4] at h ⊢
+          revert h
+          generalize applyBlockTxs e lh b.prop _ b.txs _ = res
+          rcases res with _ | ⟨s2, r⟩
+          · simp
+          · cases r <;> simp
 
 theorem playForMiner_fail_noop (e : Env) (s : St) (lh : Int) (b : Block) (h : (playForMiner e s lh b).2 ≠ .ok) :
     (playForMiner e s lh b).1 = s := by
